@@ -69,7 +69,7 @@ elab "gen_denom" h:ident d:ident : tactic => withMainContext do
   let ok (e : Lean.Expr) : Bool :=
     e.isAppOfArity ``HDiv.hDiv 6 &&
       (let D : Lean.Expr := e.getArg! 5
-       !D.isFVar && !D.hasLooseBVars && !D.isAppOf ``OfNat.ofNat && !D.isAppOf ``Nat.cast)
+       !D.isFVar && !D.hasLooseBVars && !D.isAppOf ``OfNat.ofNat && !D.isAppOf ``Nat.cast && !D.isAppOf `Real.sqrt)
   let some e := t.find? ok | throwError "gen_denom: no denominator to generalize"
   let D := e.getArg! 5
   let (_, g') ← g.generalize #[{ expr := D, xName? := some d.getId, hName? := some h.getId }]
